@@ -85,9 +85,13 @@ def run(pid, tier, seed, update_ledger=False):
     solver_s = 0.0
     per_func = []
     failed = []
+    timed_out = []
     for fr in results:
         if fr.error:
-            (undecided if fr.error_kind == 'unsupported' else errors).append('%s: %s' % (fr.qual, fr.error))
+            (undecided if fr.error_kind == 'unsupported' else errors).append(
+                '%s: %s' % (fr.qual, fr.error.strip().split('\n')[-1]))
+            if fr.error_kind != 'unsupported':
+                sys.stderr.write(fr.error + '\n')
             per_func.append(dict(function=fr.qual, status=fr.error_kind, error=fr.error.strip().split('\n')[-1]))
             continue
         a = agg(fr.obligations)
@@ -108,7 +112,7 @@ def run(pid, tier, seed, update_ledger=False):
             elif o['status'] == 'failed':
                 failed.append((fr, i, o))
             elif o['status'] == 'undecided':
-                undecided.append('%s: %s' % (o['name'], o['reason']))
+                timed_out.append((fr, i, o))
             else:
                 errors.append('%s: solver error %s' % (o['name'], o['reason']))
         led = ledger.get(pid, {}).get(fr.qual, {})
@@ -139,6 +143,26 @@ def run(pid, tier, seed, update_ledger=False):
                        if name in ledger.get(pid, {}).get(fr.qual, {}) else 'obligation not in the ledger')
         path = write_replay(pid, payload)
         violations.append((name, path, replay is not None))
+    # obligations the solver could not decide in time: a violation only if a concrete failing input is found on the
+    # real code (replay search); otherwise undecided (exit 2)
+    seen_to = set()
+    for fr, i, o in timed_out:
+        if o['name'] in seen_to or o['name'] in by_name:
+            continue
+        seen_to.add(o['name'])
+        replay = None
+        try:
+            replay = prop.replay_search(o['name'], fr.qual, seed, tier) if hasattr(prop, 'replay_search') else None
+        except Exception:
+            errors.append('replay search for %s crashed: %s' % (o['name'], traceback.format_exc().strip().split('\n')[-1]))
+        if replay is None:
+            undecided.append('%s: %s' % (o['name'], o['reason']))
+            continue
+        payload = dict(property=pid, obligation=o['name'], function=fr.qual, line=o['lineno'],
+                       solver=dict(backend=o['backend'], result='timeout', reason=o['reason']),
+                       failing_input=replay,
+                       note='solver timed out on this obligation; the violation is established by the replayed input')
+        violations.append((o['name'], write_replay(pid, payload), True))
     # bounded stand-ins / engine cross-check
     bounded = None
     if hasattr(prop, 'bounded'):
